@@ -4,5 +4,6 @@ package runtime
 
 // VerifRegistryMaps returns the VM's registry maps (for marking them as shared in the scheduler).
 func (vm *VM) VerifRegistryMaps() []any {
-	return []any{vm.classMap, vm.interfaceMap, vm.funcMap, vm.constantMap, vm.globalVars}
+	// the list of map-typed fields of VM is generated from runtime's current source (engine/load.go expandShim)
+	return []any{ /*verif:mapfields vm VM*/ nil}
 }
